@@ -73,6 +73,80 @@ fn g1_body(n: usize) {
     std::mem::forget(passes);
     std::mem::forget(toks);
 }
-harness! { fn c14_g1_passes_cover_3tokens() unwind(10) { g1_body(3) } }
-harness! { fn c14_g1_passes_cover_4tokens() unwind(12) { g1_body(4) } }
-harness! { fn c14_g1_passes_cover_5tokens() unwind(14) { g1_body(5) } }
+harness! { fn c14_g1_passes_cover_3tokens() unwind(5) { g1_body(3) } }
+harness! { fn c14_g1_passes_cover_4tokens() unwind(7) { g1_body(4) } }
+harness! { fn c14_g1_passes_cover_5tokens() unwind(8) { g1_body(5) } }
+harness! { fn c14_g1_passes_cover_2tokens() unwind(4) { g1_body(2) } }
+
+// ---------------------------------------------------------------------------------------------
+use crate::note;
+use KeywordKind as KK;
+use OperatorKind as OK;
+
+/// Token kinds for the parser probes: the structural keywords and operators the recursive
+/// descent dispatches on.
+const PARSE_KINDS: [RawTokenType; 14] = [
+    RawTokenType::Identifier,
+    RawTokenType::Keyword(KK::If),
+    RawTokenType::Keyword(KK::While),
+    RawTokenType::Keyword(KK::Begin),
+    RawTokenType::Keyword(KK::End),
+    RawTokenType::Keyword(KK::Procedure),
+    RawTokenType::Keyword(KK::Then),
+    RawTokenType::Op(OK::Colon),
+    RawTokenType::Op(OK::Caret(CaretKind::Deref)),
+    RawTokenType::Op(OK::Semicolon),
+    RawTokenType::Op(OK::LParen),
+    RawTokenType::Op(OK::Equal(EqKind::Comp)),
+    RawTokenType::IdentifierOrKeyword(KK::Platform),
+    RawTokenType::Comment(CommentKind::InlineBlock),
+];
+
+/// G4: ONE pass of the real recursive-descent parser on `n` symbolic-kind tokens + EOF (no
+/// conditional directives): it returns (no panic, loops bounded), every line lists valid,
+/// strictly increasing token positions, every token is in exactly one line, the last line is the
+/// end-of-file line holding only the end-of-file token.
+fn g4_body<const N: usize>(table: &[RawTokenType]) {
+    let mut toks: [RawToken<'static>; N] = core::array::from_fn(|_| RawToken::new("x", 0, RawTokenType::Eof));
+    let mut pass = [0usize; N];
+    let mut k = 0;
+    while k < N {
+        pass[k] = k;
+        if k + 1 < N {
+            let i: usize = kani::any();
+            kani::assume(i < table.len());
+            note!("kind_index", i);
+            toks[k] = RawToken::new("x", 0, table[i]);
+        } else {
+            toks[k] = RawToken::new("", 0, RawTokenType::Eof);
+        }
+        k += 1;
+    }
+    let lines = ph::parse_pass(&mut toks, &pass);
+    let mut seen = [0u8; N];
+    let mut l = 0;
+    while l < lines.len() {
+        let t = &lines[l].2;
+        let mut prev = usize::MAX;
+        let mut j = 0;
+        while j < t.len() {
+            assert!(t[j] < N, "line holds an invalid token position");
+            assert!(prev == usize::MAX || t[j] > prev, "line is not strictly increasing");
+            seen[t[j]] += 1;
+            prev = t[j];
+            j += 1;
+        }
+        l += 1;
+    }
+    let mut k = 0;
+    while k < N {
+        assert!(seen[k] == 1, "without conditional directives every token is in exactly one line");
+        k += 1;
+    }
+    let last = &lines[lines.len() - 1];
+    assert!(last.3 == LogicalLineType::Eof && last.2.len() == 1 && last.2[0] == N - 1, "exactly one end-of-file line, last, holding only the end-of-file token");
+    cover!(lines.len() >= 2, "at_least_two_lines");
+    std::mem::forget(lines);
+}
+harness! { fn c14_g4_parser_pass_1token() unwind(6) stubs(log::max_level => crate::common::stub_log_max_level_off) { g4_body::<2>(&PARSE_KINDS) } }
+harness! { fn c14_g4_parser_pass_2tokens() unwind(6) stubs(log::max_level => crate::common::stub_log_max_level_off) { g4_body::<3>(&PARSE_KINDS) } }
